@@ -567,7 +567,10 @@ def body(ctx):
             if (float(x), float(y)) != centres[c]:
                 ctx.finding("cells_inside_polygon/xy_not_centre", "x, y of a listed cell are not its centre",
                             {**case, "cell": c, "xy": [float(x), float(y)], "centre": centres[c]})
-        if in_quantifier(poly, ATOL):
+        # the oracle judges only calls made with the documented tolerance (the property's quantifier: coordinates
+        # differ by much more than the absolute tolerance 1e-8); a caller-supplied larger atol is compared with the
+        # model (correspondence) but is not a violation whatever the code does with it
+        if in_quantifier(poly, ATOL) and (user_atol is None or user_atol <= ATOL):
             ep = ExactPolygon(poly, centres)
             if ep.size > 0:
                 far = far_mask(ep, poly, ncell)
